@@ -17,9 +17,15 @@ import (
 	"fmt"
 	"sort"
 	"sync"
+	"sync/atomic"
 	"time"
 	_ "unsafe"
 )
+
+// freeMode is set for the whole run in free (-race) mode: every scheduling
+// point returns at once without touching shared state, so that the simulator
+// adds no happens-before edges between the goroutines of the code under test.
+var freeMode atomic.Bool
 
 // Implemented in the runtime overlay (tools/rtoverlay).
 
@@ -43,20 +49,20 @@ func rtBubbleWait()
 
 // G is a managed goroutine.
 type G struct {
-	Seq    int    // deterministic registration index
-	ID     string // deterministic path id: parent id + "." + ordinal
-	Label  string // site of the go statement, or harness label
-	goid   uint64
-	wake   chan struct{}
-	parked bool
-	done   bool
-	begun  bool
-	Site   string // last scheduling point reached
-	held      int // cooperative locks held
+	Seq       int    // deterministic registration index
+	ID        string // deterministic path id: parent id + "." + ordinal
+	Label     string // site of the go statement, or harness label
+	goid      uint64
+	wake      chan struct{}
+	parked    bool
+	done      bool
+	begun     bool
+	Site      string // last scheduling point reached
+	held      int    // cooperative locks held
 	waitLock  *lockState
 	waitWrite bool
-	nchild int
-	Steps  int // number of times released
+	nchild    int
+	Steps     int // number of times released
 }
 
 func (g *G) String() string { return fmt.Sprintf("g%d[%s %s @%s]", g.Seq, g.ID, g.Label, g.Site) }
@@ -95,6 +101,7 @@ var (
 // It returns the recovered panic value of the bubble, if any (for example the
 // end-of-bubble deadlock panic when goroutines are left blocked).
 func Run(seed uint64, controlled bool, main func()) (panicked any) {
+	freeMode.Store(!controlled)
 	mu.Lock()
 	byGoid = map[uint64]*G{}
 	all = nil
@@ -136,6 +143,9 @@ func cur() *G {
 
 // Spawn is called by the parent at a go statement.
 func Spawn(site string) *Ticket {
+	if freeMode.Load() {
+		return nil
+	}
 	id := rtGoid()
 	mu.Lock()
 	defer mu.Unlock()
@@ -173,6 +183,9 @@ func Begin(tk *Ticket) {
 
 // End is deferred by every spawned goroutine.
 func End() {
+	if freeMode.Load() {
+		return
+	}
 	id := rtGoid()
 	mu.Lock()
 	if g := byGoid[id]; g != nil {
@@ -211,6 +224,9 @@ func park(g *G, site string) {
 
 // Yield is a scheduling point placed before an operation.
 func Yield(site string) {
+	if freeMode.Load() {
+		return
+	}
 	id := rtGoid()
 	mu.Lock()
 	g := byGoid[id]
@@ -230,6 +246,9 @@ func Yield(site string) {
 // lost the token while blocked it parks; if it still holds the token (the
 // operation did not block) it continues.
 func Woke(site string) {
+	if freeMode.Load() {
+		return
+	}
 	id := rtGoid()
 	mu.Lock()
 	g := byGoid[id]
@@ -251,6 +270,10 @@ func (g *G) Holding() bool { return g.held > 0 }
 // result channel is the signature of a second completion (C03): it is
 // recorded and dropped instead of wedging the run.
 func Send[T any](site string, check bool, ch chan T, v T) {
+	if freeMode.Load() {
+		ch <- v
+		return
+	}
 	Yield(site)
 	if check && cap(ch) > 0 && len(ch) == cap(ch) {
 		Report("full-result-chan", site)
